@@ -48,6 +48,10 @@ def enumerate_cases(tier):
     for pattern in ([0, 1, 0, 2], [0, 1, 1, 2], [0, 0], [2, 1, 0, 1, 2], [0, 1, 2, 0], [1, 0, 0, 0, 1, 1]):
         yield {"rep": "list", "rows": 3, "cols": 1, "ns": list(range(0, 20)), "pattern": pattern}
         yield {"rep": "array1d", "rows": 3, "cols": 1, "ns": list(range(0, 20)), "pattern": pattern}
+    # few wells, many tips (several 384-well plates filled from a single-well trough)
+    for length, ns in ((1, [1536, 3000]), (2, [6144]), (3, [4000])):
+        yield {"rep": "list", "rows": length, "cols": 1, "ns": ns}
+        yield {"rep": "array1d", "rows": length, "cols": 1, "ns": ns}
     for bad in (-1, -5, 1.0, 2.5, "2", None):
         yield {"rep": "list", "rows": 3, "cols": 1, "ns": [], "bad_n": [bad if not isinstance(bad, float) else {"float": bad}]}
     yield {"rep": "empty_list", "rows": 0, "cols": 0, "ns": [0, 1, 5]}
